@@ -186,7 +186,7 @@ def run(tier, seed):
                                     theorem=pg['theorems'], problems=pg['problems']), False))
     ncases = 50 if tier == 'quick' else 600
     cases = [seed * 100000 + 11000 + i for i in range(ncases)]
-    for r in core.run_cases(run_case, cases):
+    for r in core.run_cases(run_case, core.with_corpus(PID, cases)):
         rep.merge(r)
     rep.obligation('correspondence: Writers.Chef.chef (recipe = table of the Python recipe\'s per-box results) = output directory of '
                    'Chef.cook (binary files byte for byte, level headers token for token with min/max by value)',
